@@ -186,6 +186,7 @@ Proof.
   - destruct Hn as [Hok Hne]. cbn [sp_norm sp_norm_v].
     split; [apply leaf_norm_value; assumption | apply leaf_norm_v_nonneg; assumption].
   - destruct Hn as (Hp & Hne & Hw & Hrest). cbn [sp_norm sp_norm_v].
+    assert (Enil : is_nil cs = false) by (destruct cs; [congruence | reflexivity]). rewrite Enil. cbn [andb]. clear Enil.
     destruct (is2 p && q_ps2_via_inner q) eqn:Eb.
     + (* exponent 2 through the components' inner products *)
       destruct (sp_inner_flat q (SProd w p cs) (ENode xs) (ENode xs) Hrest (same_shape_refl _)) as (E & L & P).
@@ -312,7 +313,8 @@ Proof.
   - destruct w as [c|arr].
     + cbn [sp_dist]. cbn [esub] in *.
       destruct Hn as (Hp & Hne & Hw & _). cbn [pw_ok] in Hw.
-      destruct (sp_norm_value q _ _ Hnd) as [E _]. cbn [sp_norm] in E. rewrite Hbr in E.
+      assert (Enil : is_nil cs = false) by (destruct cs; [congruence | reflexivity]). rewrite Enil. cbn [andb].
+      destruct (sp_norm_value q _ _ Hnd) as [E _]. cbn [sp_norm] in E. rewrite Enil in E. cbn [andb] in E. rewrite Hbr in E.
       rewrite <- E. destruct (collect1 (sp_norm q) cs (zip_with esub xs ys)); cbn [bind]; try reflexivity.
       apply ps_dist_comb_eq. assumption.
     + cbn [sp_dist]. apply (sp_norm_value q _ _ Hnd).
